@@ -367,6 +367,8 @@ func c07(r *Report, s *Sem) {
 			}})
 		r.Check(R6, "func "+fnName(fn)+" / close after send", p.instrPos(send), len(exits) == 0, fmt.Sprintf("%d exit(s) reachable on the send's err == nil edge without Transport.Close", len(exits)))
 	}
+	r.Import(s, "C09", "R6", "R10", "each stage optional as configured — compression: the negotiation stage is not skipped when the single remaining compression option differs from the one in use", 1)
+	r.Import(s, "C10", "R1", "R11", "each stage optional as configured — encryption: the negotiation stage is not skipped when the single remaining encryption option differs from the one in use (the server would go straight from 'new' to the authentication request)", 1)
 }
 
 func reasonText(v ssa.Value) string {
